@@ -411,6 +411,13 @@ def _numeral(x):
     return None
 
 
+def _numeral_exact(x):
+    x = z3.simplify(x)
+    if z3.is_rational_value(x):
+        return Fraction(x.numerator_as_long(), x.denominator_as_long())
+    return None
+
+
 def _numeric(fn, x):
     """replay mode: evaluate a transcendental function numerically on a numeral"""
     if getattr(cur(), "tol", None) is None:
@@ -440,7 +447,9 @@ def sqrt_real(x):
     key = ("sqrt", x.sexpr())
     if key not in c.memo:
         c.memo[key] = True
-        c.fact(z3.Implies(x >= 0, z3.And(s >= 0, s * s == x)))
+        c.fact(z3.Implies(x >= 0, z3.And(s >= 0, s * s == x)), heavy=True)
+        c.fact(z3.Implies(x >= 0, s >= 0))
+        c.fact(z3.Implies(x > 0, s > 0))
     return s
 
 
@@ -571,6 +580,10 @@ def imag_(a):
 
 
 def pow_(a, b):
+    if isinstance(b, F) and b.nan is False:
+        nv = _numeral_exact(b.v)
+        if nv is not None:
+            b = int(nv) if nv.denominator == 1 else float(nv)
     if is_pyint(b) and b >= 0 and b <= 8:
         if b == 0:
             return 1
@@ -862,6 +875,11 @@ class Arr:
             for r in rng:
                 c.assume(r)
             return tuple(idx)
+        # soft range facts (sound for a fresh index): usable by the branch solver whenever the extent is
+        # known to be positive
+        for t, ax in zip(idx, self.axes):
+            for i, n in zip(t, ax):
+                c.fact(z3.And(i >= 0, z3.Implies(zi(n) > 0, i < zi(n))))
         return tuple(idx), And_(*rng)
 
     def in_range(self, idx):
